@@ -16,7 +16,7 @@ import (
 // C01 — encode → read round trip preserves every record.
 
 const c01Rule = "rapid draws (Go struct type as data: reflect.StructOf types 80% / catalogue of named types through the real Encoder[T] 20%; " +
-	"0-8 correlated records; compression; block size; flush pattern; by-value or by-pointer ReadFile target; the file presented through bytes.Reader, a small bufio.Reader or a reader returning 1-7 bytes per call); oracle: ReadFile returns nil, " +
+	"0-8 correlated records; compression; block size; flush pattern; by-value or by-pointer ReadFile target (the by-pointer target pre-populated with a record); the file presented through bytes.Reader, a small bufio.Reader or a reader returning 1-7 bytes per call); oracle: ReadFile returns nil, " +
 	"calls back once per record in order and Abs(out[i]) matches Abs(in[i]) (documented normalisations only); " +
 	"non-trivial = >=2 records AND (>=2 file blocks OR a field null in record i+1 and non-null in record i) AND the type has a nested struct/slice/map/pointer; distinct by case JSON hash"
 
@@ -29,9 +29,20 @@ func readBack(file []byte, ts spec.TypeSpec, typ reflect.Type, byPointer bool) (
 }
 
 func readBackFrom(rd avro.Reader, ts spec.TypeSpec, typ reflect.Type, byPointer bool) ([]spec.AbsVal, error) {
+	return readBackDirty(rd, ts, typ, byPointer, false)
+}
+
+func readBackDirty(rd avro.Reader, ts spec.TypeSpec, typ reflect.Type, byPointer bool, dirty bool) ([]spec.AbsVal, error) {
 	var out interface{}
 	if byPointer {
-		out = reflect.New(typ).Interface()
+		p := reflect.New(typ)
+		if dirty {
+			// the caller's struct is not empty on entry (pre-populated, or left over from
+			// an earlier read that stopped early): each delivered record must still be
+			// exactly what the file says
+			junkFill(p.Elem(), 3)
+		}
+		out = p.Interface()
 	} else {
 		out = reflect.New(typ).Elem().Interface()
 	}
@@ -85,7 +96,11 @@ func runC01(c encCase) (bool, []string, error) {
 	if c.Reader != 0 {
 		labels = append(labels, "short_or_buffered_reader")
 	}
-	out, err := readBackFrom(makeReader(c.Reader, file), c.Type, typ, c.ByPointer)
+	dirty := c.ByPointer && len(c.Records)%2 == 1 // the target starts out full of the caller's old values
+	if dirty {
+		labels = append(labels, "dirty_target")
+	}
+	out, err := readBackDirty(makeReader(c.Reader, file), c.Type, typ, c.ByPointer, dirty)
 	if err != nil {
 		return nt, labels, err
 	}
